@@ -68,7 +68,7 @@ fn nontrivial(p: &Program) -> bool {
 }
 
 pub fn run(ctx: &Ctx) {
-    ctx.set_rule("generated builder programs (constructor arguments + op history, proptest over a choice sequence) for the 21 checksummed kinds, plus directed histories [], [e], e x255/256/257, every ordered pair of entry kinds, and long histories across 65536 entries / 64 KiB; oracle: byte sum of the emitted image == 0 after every observed prefix (RSDP: first 20 and all 36 bytes; Sdt also as_slice()). Non-trivial = non-empty history; distinct by hash of the program.");
+    ctx.set_rule("generated builder programs (constructor arguments + op history, proptest over a choice sequence) for the 21 checksummed kinds, plus directed histories [], [e], e x255/256/257, every ordered pair of entry kinds, and long histories across 65536 entries / 64 KiB; oracle: byte sum of the emitted image == 0 after every observed prefix (RSDP: first 20 and all 36 bytes; Sdt also as_slice()). Non-trivial = non-empty history; distinct by hash of the program. Also: every pub field of the FADT builder written directly (including its checksum byte and a Length below the real size), assignments to SLIT domains outside the matrix (refused or not, the sum must hold), and objects re-used after a refused call (the construction helpers attempt one where possible). Every image is serialised after a discarded serialisation and through several sinks.");
     ctx.assume("documented preconditions are part of the domain: device<32, function<8, one IMSIC via add_imsic, set_log_area once, CFMWS targets == ways, Sdt length >= 36, VIOT below 64 KiB; ops outside are generated rarely and must be refused leaving the table unchanged");
     ctx.assume("FACS is exempt (no checksum)");
     let seed = ctx.seed;
